@@ -262,8 +262,11 @@ struct Value {
     }
 
     Value &operator=(ObjectT &&obj) noexcept {
+        // obj can be a member of this value: take it before the content goes.
+        ObjectT n_obj{Memory::Move(obj)};
+
         reset();
-        object_ = Memory::Move(obj);
+        object_ = Memory::Move(n_obj);
         setTypeToObject();
 
         return *this;
@@ -280,8 +283,11 @@ struct Value {
     }
 
     Value &operator=(ArrayT &&arr) noexcept {
+        // arr can be a member of this value: take it before the content goes.
+        ArrayT n_arr{Memory::Move(arr)};
+
         reset();
-        array_ = Memory::Move(arr);
+        array_ = Memory::Move(n_arr);
         setTypeToArray();
 
         return *this;
@@ -298,8 +304,11 @@ struct Value {
     }
 
     Value &operator=(StringT &&str) noexcept {
+        // str can be a member of this value: take it before the content goes.
+        StringT n_str{Memory::Move(str)};
+
         reset();
-        string_ = Memory::Move(str);
+        string_ = Memory::Move(n_str);
         setTypeToString();
 
         return *this;
@@ -350,8 +359,11 @@ struct Value {
     }
 
     Value &operator=(const Char_T *str) {
+        // str can point into this value's own string: copy it before the content goes.
+        StringT n_str{str};
+
         reset();
-        string_ = StringT{str};
+        string_ = Memory::Move(n_str);
         setTypeToString();
 
         return *this;
@@ -464,12 +476,15 @@ struct Value {
         if (isObject()) {
             object_ += Memory::Move(obj);
         } else {
+            // obj can be a member of this value: take it before the content goes or moves.
+            Value tmp{Memory::Move(obj)};
+
             if (!isArray()) {
                 reset();
                 setTypeToArray();
             }
 
-            array_ += Value{Memory::Move(obj)};
+            array_ += Memory::Move(tmp);
         }
     }
 
@@ -478,15 +493,18 @@ struct Value {
     }
 
     inline void operator+=(ArrayT &&arr) {
+        // arr can be a member of this value: take it before the content goes or moves.
+        ArrayT tmp{Memory::Move(arr)};
+
         if (!isArray()) {
             reset();
             setTypeToArray();
         }
 
-        if (arr.Size() != 0) {
-            array_ += Memory::Move(arr);
+        if (tmp.Size() != 0) {
+            array_ += Memory::Move(tmp);
         } else {
-            array_ += Value{Memory::Move(arr)};
+            array_ += Value{Memory::Move(tmp)};
         }
     }
 
@@ -495,12 +513,15 @@ struct Value {
     }
 
     inline void operator+=(StringT &&str) {
+        // str can be a member of this value: take it before the content goes or moves.
+        Value tmp{Memory::Move(str)};
+
         if (!isArray()) {
             reset();
             setTypeToArray();
         }
 
-        array_ += Value{Memory::Move(str)};
+        array_ += Memory::Move(tmp);
     }
 
     inline void operator+=(const StringT &str) {
@@ -551,8 +572,13 @@ struct Value {
 
     inline Value &operator[](const Char_T *key) {
         if (!isObject()) {
+            // key can point into this value's own string: copy it before the content goes.
+            StringT n_key{key};
+
             reset();
             setTypeToObject();
+
+            return (object_[Memory::Move(n_key)]);
         }
 
         return (object_[key]);
@@ -568,18 +594,26 @@ struct Value {
     }
 
     inline Value &operator[](StringT &&key) {
+        // key can be this value's own string: take it before the content goes.
+        StringT n_key{Memory::Move(key)};
+
         if (!isObject()) {
             reset();
             setTypeToObject();
         }
 
-        return (object_[Memory::Move(key)]);
+        return (object_[Memory::Move(n_key)]);
     }
 
     inline Value &operator[](const StringT &key) {
         if (!isObject()) {
+            // key can be this value's own string: copy it before the content goes.
+            StringT n_key{key};
+
             reset();
             setTypeToObject();
+
+            return (object_[Memory::Move(n_key)]);
         }
 
         return (object_[key]);
@@ -622,8 +656,13 @@ struct Value {
     // Will insert the key if it does not exist.
     inline Value &Get(const Char_T *key, SizeT length) {
         if (!isObject()) {
+            // key can point into this value's own string: copy it before the content goes.
+            StringT n_key{key, length};
+
             reset();
             setTypeToObject();
+
+            return (object_[Memory::Move(n_key)]);
         }
 
         return (object_.Get(key, length));
